@@ -245,6 +245,7 @@ def kind : Kind where
   init := fun ps => match ps with
     | [.atom "int"] => some false
     | [.atom "str"] => some true
+    | [.atom "any"] => some false     -- T = any in the harness, int-coded injectively: the int answers must be the same
     | _ => none
   step := fun st l =>
     let r := if st then stepWith strCodec l else stepWith intCodec l
